@@ -1,5 +1,3 @@
-use byteorder::{BigEndian, WriteBytesExt};
-
 use gm_sm3::sm3_hash;
 
 use crate::error::{Sm2Error, Sm2Result};
@@ -143,7 +141,7 @@ impl Exchange {
         temp.extend_from_slice(&y2.to_byte_be());
 
         let mut prepend: Vec<u8> = Vec::new();
-        prepend.write_u16::<BigEndian>(0x02_u16).unwrap();
+        prepend.push(0x02_u8);
         prepend.extend_from_slice(&yv_bytes);
         prepend.extend_from_slice(&sm3_hash(&temp));
         Ok((r2_point, sm3_hash(&prepend)))
@@ -212,7 +210,7 @@ impl Exchange {
         let temp_hash = sm3_hash(&temp);
 
         let mut prepend: Vec<u8> = Vec::new();
-        prepend.write_u16::<BigEndian>(0x02_u16).unwrap();
+        prepend.push(0x02_u8);
         prepend.extend_from_slice(&yu_bytes);
         prepend.extend_from_slice(&temp_hash);
 
@@ -222,7 +220,7 @@ impl Exchange {
         }
 
         let mut prepend: Vec<u8> = Vec::new();
-        prepend.write_u16::<BigEndian>(0x03_u16).unwrap();
+        prepend.push(0x03_u8);
         prepend.extend_from_slice(&yu_bytes);
         prepend.extend_from_slice(&temp_hash);
         Ok(sm3_hash(&prepend))
@@ -252,7 +250,7 @@ impl Exchange {
         temp.extend_from_slice(&y2.to_byte_be());
 
         let mut prepend: Vec<u8> = Vec::new();
-        prepend.write_u16::<BigEndian>(0x03_u16).unwrap();
+        prepend.push(0x03_u8);
         prepend.extend_from_slice(&yv.to_byte_be());
         prepend.extend_from_slice(&sm3_hash(&temp));
         let s_2 = sm3_hash(&prepend);
